@@ -75,6 +75,16 @@ func main() {
 		os.Exit(code)
 	case "list":
 		e.cmdList()
+	case "mods":
+		var ex []string
+		for _, n := range fs.Args() {
+			if strings.HasPrefix(n, "impl:") {
+				ex = append(ex, e.implsOf(n[5:])...)
+			} else {
+				ex = append(ex, n)
+			}
+		}
+		e.cmdMods(ex)
 	case "names":
 		var ns []string
 		for n := range e.funcs {
